@@ -413,7 +413,7 @@ func checkCase(drv *driver, di int, d doc, args []string, res *ux.Result) error 
 		}
 	}
 	if len(outputs) > 1 {
-		res.Add("output depends on map iteration order", fmt.Sprintf("%s\n%d different outputs over %d executions, e.g.\n--- orders %s ---\n%s\n--- orders %s ---\n%s", desc, len(outputs), ans.Executions, outputs[0].Choices, outputs[0].Output, outputs[1].Choices, outputs[1].Output), rp)
+		res.Add("output is not byte-identical across map iteration orders and repeated runs (second run: another working directory, an older output file present)", fmt.Sprintf("%s\n%d different outputs over %d executions, e.g.\n--- orders %s ---\n%s\n--- orders %s ---\n%s", desc, len(outputs), ans.Executions, outputs[0].Choices, outputs[0].Output, outputs[1].Choices, outputs[1].Output), rp)
 	}
 	return nil
 }
